@@ -2,7 +2,7 @@
 Require Import ZArith List Bool Lia ZifyBool.
 Import ListNotations.
 Local Open Scope Z_scope.
-From EphVerif Require Import lib.Bytes model.ControlModel gen.Constants_control.
+From EphVerif Require Import lib.Bytes model.Sha256Model model.PowModel model.FilenameModel model.ControlModel gen.Constants_control.
 
 (* ================================================================ C29 *)
 Theorem unescape_escape v : unescape_value (escape_value v) = v.
@@ -190,3 +190,80 @@ Qed.
 
 Theorem limiter_constants : store_rate_window = 30 /\ store_rate_limit = 6 /\ fetch_rate_window = 30 /\ fetch_rate_limit = 12.
 Proof. repeat split; reflexivity. Qed.
+
+(* ================================================================ C28: admission of one STORE *)
+Lemma digits_value_bounds s : forall acc v, 0 <= acc -> digits_value acc s = Some v -> acc <= v /\ forallb is_digit s = true.
+Proof.
+  induction s as [|c r IH]; intros acc v Ha H; cbn [digits_value forallb] in *.
+  - inversion H; subst. split; [lia | reflexivity].
+  - destruct (is_digit c) eqn:D; [|discriminate]. unfold is_digit in D.
+    destruct (IH (acc * 10 + (c - 48)) v ltac:(lia) H) as [Hv Hd]. rewrite Hd. split; [lia | reflexivity].
+Qed.
+
+(* the header parser accepts exactly non-empty all-digit strings whose value fits a uint64_t *)
+Theorem parse_u64_sound s v : parse_u64 s = Some v ->
+  s <> [] /\ forallb is_digit s = true /\ 0 <= v < 18446744073709551616 /\ digits_value 0 s = Some v.
+Proof.
+  unfold parse_u64. destruct s as [|c r]; [discriminate|]. intros H.
+  destruct (digits_value 0 (c :: r)) as [w|] eqn:E; [|discriminate].
+  destruct (w <? 18446744073709551616) eqn:L; [|discriminate]. inversion H; subst.
+  destruct (digits_value_bounds (c :: r) 0 v ltac:(lia) E) as [Hv Hd].
+  split; [discriminate|]. split; [exact Hd|]. split; [lia | reflexivity].
+Qed.
+
+(* an accepted STORE passed every admission check *)
+Theorem store_accept_sound cfg declared body ttl path pow :
+  store_admission cfg declared body ttl path pow = 0 ->
+  exists s n, declared = Some s /\ parse_u64 s = Some n /\ n <= sc_cap cfg /\ n <= zlen body /\
+    let payload := firstn (Z.to_nat n) body in
+    (exists t, (match ttl with
+                | None => t = sc_default_ttl cfg
+                | Some ts => exists v, parse_u64 ts = Some v /\ t = (if v <? 9223372036854775808 then v else v - 18446744073709551616)
+                end) /\ sc_min_ttl cfg <= t <= sc_max_ttl cfg) /\
+    (sc_pow cfg <= 0 \/
+     exists ps nonce, pow = Some ps /\ parse_u64 ps = Some nonce /\
+       store_pow_valid (sha256 payload) (zlen payload)
+         (match path with Some p => hint_sanitize p | None => [] end) nonce (sc_pow cfg) = true).
+Proof.
+  unfold store_admission. destruct declared as [s|]; [|discriminate].
+  destruct (parse_u64 s) as [n|] eqn:Pn; [|discriminate].
+  destruct (sc_cap cfg <? n) eqn:C; [discriminate|].
+  destruct (zlen body <? n) eqn:B; [discriminate|].
+  intros H. exists s, n. split; [reflexivity|]. split; [exact Pn|]. split; [lia|]. split; [lia|].
+  cbv zeta. unfold store_checks in H.
+  destruct ttl as [ts|].
+  - destruct (parse_u64 ts) as [v|] eqn:Pt; [|discriminate].
+    destruct (((if v <? 9223372036854775808 then v else v - 18446744073709551616) <? sc_min_ttl cfg) ||
+              (sc_max_ttl cfg <? (if v <? 9223372036854775808 then v else v - 18446744073709551616))) eqn:W; [discriminate|].
+    split.
+    + exists (if v <? 9223372036854775808 then v else v - 18446744073709551616). split; [exists v; auto | lia].
+    + destruct (sc_pow cfg <=? 0) eqn:D; [left; lia|]. right.
+      destruct pow as [ps|]; [|discriminate]. destruct (parse_u64 ps) as [nonce|] eqn:Pp; [|discriminate].
+      destruct (store_pow_valid _ _ _ nonce (sc_pow cfg)) eqn:V; [|discriminate].
+      exists ps, nonce. auto.
+  - destruct ((sc_default_ttl cfg <? sc_min_ttl cfg) || (sc_max_ttl cfg <? sc_default_ttl cfg)) eqn:W; [discriminate|].
+    split.
+    + exists (sc_default_ttl cfg). split; [reflexivity | lia].
+    + destruct (sc_pow cfg <=? 0) eqn:D; [left; lia|]. right.
+      destruct pow as [ps|]; [|discriminate]. destruct (parse_u64 ps) as [nonce|] eqn:Pp; [|discriminate].
+      destruct (store_pow_valid _ _ _ nonce (sc_pow cfg)) eqn:V; [|discriminate].
+      exists ps, nonce. auto.
+Qed.
+
+(* a declared length above the cap is refused whatever the body is: no body byte takes part in the decision *)
+Theorem oversize_refused_before_body cfg s n body body' ttl path pow ttl' path' pow' :
+  parse_u64 s = Some n -> sc_cap cfg < n ->
+  store_admission cfg (Some s) body ttl path pow = 2 /\
+  store_admission cfg (Some s) body ttl path pow = store_admission cfg (Some s) body' ttl' path' pow'.
+Proof.
+  intros P C. unfold store_admission. rewrite P.
+  destruct (sc_cap cfg <? n) eqn:E; [split; reflexivity | lia].
+Qed.
+
+(* with PoW enabled, a STORE without a nonce, with an unparsable one or with one that fails the validator is refused *)
+Theorem store_pow_enforced cfg declared body ttl path pow :
+  0 < sc_pow cfg -> store_admission cfg declared body ttl path pow = 0 -> pow <> None.
+Proof.
+  intros D H. destruct (store_accept_sound _ _ _ _ _ _ H) as [s [n [_ [_ [_ [_ K]]]]]]. cbv zeta in K.
+  destruct K as [_ [K|[ps [nonce [K _]]]]]; [lia | congruence].
+Qed.
